@@ -353,6 +353,42 @@ func genHostile(h *H) {
 			}
 		}
 	}
+	// messages built by someone who knows a recipient's public key: the payload-key box is authentic but
+	// carries a payload key of every length around 32 (the receiver must refuse, not trust the length)
+	{
+		rsk, ssk2 := h.randBoxSk(), h.randSigKey()
+		lens := []int{0, 1, 16, 31, 33, 48, 64}
+		if thorough {
+			lens = nil
+			for l := 0; l <= 70; l++ {
+				if l != 32 {
+					lens = append(lens, l)
+				}
+			}
+		}
+		for _, l := range lens {
+			for _, mj := range []int{1, 2} {
+				for _, hide := range []bool{false, true} {
+					pe := &refEnc{format: "saltpack", major: mj, minor: 0, mode: 0, senderSk: h.randBoxSk(), ephSk: h.randBoxSk(), payloadKey: h.rng.Bytes(l),
+						rcpts: []refRcpt{{pk: boxPk(h.randBoxSk())}, {pk: boxPk(rsk), hide: hide}}, chunks: [][]byte{[]byte("y")}}
+					h.tag("keyed-payload-key-length:enc")
+					h.Run(Case{Op: "hostile", A: map[string]string{"input": hx(pe.seal()), "keys": ringKeysStr([][]byte{rsk}), "signers": "_", "ring": "0", "mut": "enc-boxed-payload-key-length-" + strconv.Itoa(l)}})
+				}
+			}
+			for _, sym := range []bool{false, true} {
+				rc := refScRcpt{boxPk: boxPk(rsk)}
+				ring := "0"
+				if sym {
+					rc = refScRcpt{symKey: make([]byte, 32), symID: []byte("some identifier")}
+					ring = "3" // the resolver that answers every identifier with the all-zero key
+				}
+				psc := &refSc{format: "saltpack", major: 2, minor: 0, mode: 3, signerSk: ssk2, ephSk: h.randBoxSk(), payloadKey: h.rng.Bytes(l),
+					rcpts: []refScRcpt{rc}, chunks: [][]byte{[]byte("x")}}
+				h.tag("keyed-payload-key-length:sc")
+				h.Run(Case{Op: "hostile", A: map[string]string{"input": hx(psc.seal()), "keys": ringKeysStr([][]byte{rsk}), "signers": blist([][]byte{ssk2[32:]}), "ring": ring, "mut": "sc-boxed-payload-key-length-" + strconv.Itoa(l)}})
+			}
+		}
+	}
 	for i, b := range lengthBombs() {
 		for _, ring := range []int{0, 1, 9} {
 			h.tag("length-bomb")
